@@ -84,7 +84,9 @@ class Monitor:
             # is exactly the pristine world again, whoever acted or left before
             if prev["agents"] and all(v[3] for v in prev["agents"].values()) and now["agents"] and not any(v[3] for v in now["agents"].values()):
                 w = self.world_snapshot()
-                if self.world0 is not None and w != self.world0:
+                if self.cfg["env"].get("use_dynamic_addresses"):
+                    w = None                    # re-labelled at every reset: the world-level statement is C13's
+                if w is not None and self.world0 is not None and w != self.world0:
                     diff = [k for k in w if w[k] != self.world0[k]]
                     self.hit(["C08", "C07"], "world not restored by the reset task", f"after the collective reset the world tables {diff} differ from their initial condition")
                 self.count("resets_world_checked")
@@ -373,7 +375,7 @@ def instrument(S, cfg, CR, goals):
     return M
 
 
-def run_sessions(ctx, prop, n_sessions, gen_opts, cfg_opts=None, extra_monitor=None, n_directed=22):
+def run_sessions(ctx, prop, n_sessions, gen_opts, cfg_opts=None, extra_monitor=None, n_directed=26):
     """Generate sessions, follow them with the model, collect this property's monitor hits."""
     CG, CR, nsgenv = _imports()
     rng0 = random.Random(ctx.seed * 104729 + int(prop[1:]))
@@ -381,6 +383,7 @@ def run_sessions(ctx, prop, n_sessions, gen_opts, cfg_opts=None, extra_monitor=N
     paths, metas = [], []
     stats = {}
     labels = 0
+    twin = {"sessions": 0, "connections_from_a_departed_agents_address": 0, "differences": 0}
     for i in range(n_sessions):
         rng = random.Random(rng0.randrange(1 << 40))
         if i < n_directed:
@@ -429,8 +432,32 @@ def run_sessions(ctx, prop, n_sessions, gen_opts, cfg_opts=None, extra_monitor=N
             events = list(S.events)
             ntrace = len(S.trace)
             labels += ntrace
+            ref_out = norm_outputs(S)
+            ref_errs = len(S.d.task_errors)
         finally:
             G.S.close()
+        # address reuse twin: only where a later connection has a departed agent's address to come from
+        dead_before_connect = False
+        seen_end = False
+        for e in events:
+            if e[0] in ("eof", "readerr", "writefail") or (e[0] == "send" and e[3].get("kind") in ("quit", "undecodable")):
+                seen_end = True
+            elif e[0] == "connect" and seen_end:
+                dead_before_connect = True
+        if dead_before_connect:
+            try:
+                reused, out2, errs2 = reuse_twin(CR, cfg, draw, events)
+                twin["sessions"] += 1
+                twin["connections_from_a_departed_agents_address"] += reused
+                if reused and (out2 != ref_out or len(errs2) != ref_errs):
+                    diff = [k for k in ref_out if out2.get(k) != ref_out[k]]
+                    twin["differences"] += 1
+                    ctx.violations.append({"key": "a departed agent's address is remembered",
+                                           "what": f"the same session answers differently when a new connection comes from the address of an agent that has left ({len(diff)} connection(s) differ, task errors {errs2[:1]}): the coordinator has not forgotten the departed agent completely, although the model (fresh addresses) and the property say it must",
+                                           "replay": {"kind": "coordinator_session_reuse_twin", "config": cfg, "draw": draw, "events": events}})
+            except Exception as e:
+                import traceback
+                ctx.stage_errors.append((f"reuse twin of session {i}", f"{type(e).__name__}: {e}\n{traceback.format_exc()[-600:]}"))
         p = os.path.join(casedir, f"sess_{i}.v")
         with open(p, "w") as f:
             f.write(txt)
@@ -465,12 +492,13 @@ def run_sessions(ctx, prop, n_sessions, gen_opts, cfg_opts=None, extra_monitor=N
         "sessions": len(metas), "labels_followed": labels,
         "traces_validated_against_impl": len(metas) - disagreements,
         "response_and_barrier_statistics": stats,
+        "address_reuse_twins": twin,
         "disagreements_checked": labels, "model_impl_disagreements": disagreements,
         "samples": [[(e[0] if e[0] != "send" else f"send:{e[3].get('kind')}") for e in metas[0][2][:25]]] if metas else [],
     })
     ctx.assumptions += [
         "one label = one step of an asyncio task (CPython 3.12 pure-Python Task, stepped by the harness); the model allows any enabled task to run, the implementation's schedules are particular ones",
-        "connection addresses are fresh; at most one unread chunk per connection (a second message before the first was read would be coalesced by StreamReader.read and is a malformed message)",
+        "connection addresses are fresh in the model (reuse of a departed agent's address is decided by the address-reuse twin: the same session with later connections coming from departed agents' peer addresses must answer identically); at most one unread chunk per connection (a second message before the first was read would be coalesced by StreamReader.read and is a malformed message)",
         "the world is an oracle in this instance (views are interned identifiers, results of the real world calls in call order); the world model is tied separately (C02/C03)",
         "the goal check is the harness' reference subset check; detection is Model/Defender.v on the generated tables with the session's scripted draw",
         "a peer that disappears while its request is parked is observed only at the next read/write (TCP/asyncio behaviour, outside the model)",
@@ -478,9 +506,100 @@ def run_sessions(ctx, prop, n_sessions, gen_opts, cfg_opts=None, extra_monitor=N
     return metas
 
 
+def apply_event(S, e, peer=None):
+    """Apply one recorded session event to a Session."""
+    k = e[0]
+    a = tuple(e[1]) if len(e) > 1 and isinstance(e[1], list) else None
+    if k == "connect":
+        S.connect(a, peer)
+    elif k == "send":
+        text = e[2]
+        desc = e[3]
+        if desc.get("kind") == "undecodable":
+            text = bytes.fromhex(text)
+        S.send(a, text, desc)
+    elif k == "eof":
+        S.eof(a)
+    elif k == "readerr":
+        S.read_error(a)
+    elif k == "writefail":
+        S.write_fail(a)
+    elif k == "settle":
+        S.settle()
+    elif k == "run":
+        S.run_iters(e[1])
+
+
+def norm_outputs(S):
+    """Per connection key: the responses written, decoded, without the address they are addressed to."""
+    out = {}
+    for key, c in S.d.conns.items():
+        rs = []
+        for raw in c.writer.chunks:
+            try:
+                doc = json.loads(raw[:-3].decode())
+                if isinstance(doc, dict):
+                    doc.pop("to_agent", None)
+                rs.append([raw[-3:].decode("latin1"), doc])
+            except Exception:
+                rs.append(["raw", raw.hex()])
+        out[key] = (rs, c.task.done())
+    return out
+
+
+def reuse_twin(CR, cfg, draw, events):
+    """The same session once more on the real coordinator, except that a connection arriving at a quiescent moment comes from the
+    peer address of an earlier connection that has ended and left the game (port reuse).  The coordinator identifies agents by
+    peer address; it must have forgotten the departed agent completely (C10), so the twin must answer exactly like the original,
+    which the model followed with fresh addresses."""
+    S2 = CR.Session(cfg, draw=draw)
+    S2.d.on_segment = None
+    reused = 0
+    try:
+        for e in events:
+            peer = None
+            if e[0] == "connect" and S2.d.quiescent():
+                g, srv = S2.g, S2.d.server_cb
+                live = {c.peer for c in S2.d.conns.values() if not c.task.done()}
+                for c in S2.d.conns.values():
+                    if c.task.done() and c.peer not in live and c.peer not in g.agents and c.peer not in srv.answers_queues:
+                        peer = c.peer
+                        break
+                if peer is not None:
+                    reused += 1
+            apply_event(S2, e, peer)
+        S2.settle()
+        return reused, norm_outputs(S2), [repr(x) for x in S2.d.task_errors]
+    finally:
+        S2.close()
+
+
 def replay_session(ctx, prop, payload):
     """Re-run a recorded session on the real coordinator and re-apply this property's monitor."""
     CG, CR, nsgenv = _imports()
+    if payload.get("kind") == "coordinator_session_reuse_twin":
+        cfg, draw, events = payload["config"], payload.get("draw"), payload["events"]
+        S = CR.Session(cfg, draw=draw)
+        S.d.on_segment = None
+        try:
+            for e in events:
+                apply_event(S, e)
+            S.settle()
+            ref = norm_outputs(S)
+        finally:
+            S.close()
+        reused, out, errs = reuse_twin(CR, cfg, draw, events)
+        bad = 0
+        for key in ref:
+            print(key, "fresh addresses:", [(r[1].get("status"), (r[1].get("observation") or {}).get("reward")) if isinstance(r[1], dict) else r for r in ref[key][0]])
+            if out.get(key) != ref[key]:
+                bad += 1
+                print(key, "reused address :", [(r[1].get("status"), (r[1].get("observation") or {}).get("reward")) if isinstance(r[1], dict) else r for r in out.get(key, ([], None))[0]], " <-- differs")
+        print(f"{reused} connection(s) came from the address of a departed agent; {bad} connection(s) answered differently; task errors: {errs}")
+        if bad or errs:
+            print(f"VIOLATION property={prop} replay=(this file)")
+            return 1
+        return 0
     if payload.get("kind") != "coordinator_session":
         print(json.dumps(payload, indent=1)[:4000])
         return 0
@@ -489,26 +608,7 @@ def replay_session(ctx, prop, payload):
     M = instrument(S, cfg, CR, CG.goals_of(cfg))
     try:
         for e in events:
-            k = e[0]
-            a = tuple(e[1]) if len(e) > 1 and isinstance(e[1], list) else None
-            if k == "connect":
-                S.connect(a)
-            elif k == "send":
-                text = e[2]
-                desc = e[3]
-                if desc.get("kind") == "undecodable":
-                    text = bytes.fromhex(text)
-                S.send(a, text, desc)
-            elif k == "eof":
-                S.eof(a)
-            elif k == "readerr":
-                S.read_error(a)
-            elif k == "writefail":
-                S.write_fail(a)
-            elif k == "settle":
-                S.settle()
-            elif k == "run":
-                S.run_iters(e[1])
+            apply_event(S, e)
         S.settle()
         M.at_quiescence()
         for (hp, key, what) in M.hits:
